@@ -56,7 +56,7 @@ META = dict(
     "non-trivial = the operation's cascade closure contains more than the object itself or an orphan rule fired",
     assumptions=["SQLite", "single session", "cascade on the reverse many-to-one side is the default"],
     bounds=dict(
-        quick="U1: all 48 configurations, U3: 26, U2: 17; histories <= 2 ops after 2-3 roots (empty, populated+committed, pending graph), autoflush on (+ off for the common cascades); expire/refresh probes at every clean state",
+        quick="U1: all 48 configurations, U3: 26, U2: 10; histories <= 2 ops after 2-3 roots (empty, populated+committed, pending graph), autoflush on (+ off for the common cascades); expire/refresh probes at every clean state",
         thorough="U1 / U3: all 48, U2: all 32 configurations; histories <= 2 ops after 3 roots, autoflush on and off; <= 3 ops for 4 U1 configurations after the populated root",
     ),
 )
@@ -85,10 +85,13 @@ def shards(tier, seed):
     presets = {c30.SU, c30.ALL, c30.ORPH}
     for wn, orphan in (("U1", True), ("U3", True), ("U2", False)):
         for ci, cs in enumerate(cascade_strings(orphan)):
-            if tier == "quick" and wn != "U1" and ci % 2 == 1 and cs not in presets:
-                continue  # quick: every configuration on U1, every second one on U3 / U2 (all of them in thorough)
+            if tier == "quick" and wn == "U3" and ci % 2 == 1 and cs not in presets:
+                continue  # quick: every configuration on U1, every second one on U3, every fourth on U2 (all of them in thorough)
+            if tier == "quick" and wn == "U2" and ci % 4 != 0 and cs not in presets:
+                continue
+            common = cs in presets or cs == "save-update, delete, delete-orphan"
             if wn == "U1":
-                roots = (0, 1, 4) if tier == "quick" else (0, 1, 2, 4)
+                roots = ((0, 1, 4) if common else (0, 1)) if tier == "quick" else (0, 1, 2, 4)
             else:
                 roots = (0, 2 if wn == "U3" else 1) if tier == "quick" else (0, 1, 2)
             for ri in roots:
@@ -96,7 +99,10 @@ def shards(tier, seed):
                     if tier == "quick" and not af and not (ri == 1 and (cs in presets or cs == "save-update, delete, delete-orphan")):
                         continue  # quick: loaded-collection (autoflush off) replicas for the common cascades only
                     deep = tier != "quick" and wn == "U1" and ri == 1 and af and (cs in presets or cs in DEEP)
-                    out.append(dict(world=(wn, cs), root=ri, autoflush=af, depth=3 if deep else 2))
+                    probes = bool((common and wn == "U1") or tier != "quick")
+                    nparts = 8 if deep else (4 if (probes and ri == 1) else 1)
+                    for part in range(nparts):
+                        out.append(dict(world=(wn, cs), root=ri, autoflush=af, depth=3 if deep else 2, probes=probes, part=part, nparts=nparts))
     return out
 
 
@@ -241,7 +247,10 @@ def run_shard(shard, tier, rec):
         return r
 
     expire_probes(rec, w, shard, h, m0)
-    ow.explore_with_probes(rec, (h, m0, ("root", repr(shard))), enabled, step, depth)
+    # (quick: the closing flush + commit after every 2-operation history for the common cascades only; the other
+    # configurations see flush / commit as ordinary operations of the alphabet)
+    ow.explore_with_probes(rec, (h, m0, ("root", repr(shard))), enabled, step, depth, probes=(("flush",), ("commit",)) if shard.get("probes", True) else (),
+                           part=shard.get("part", 0), nparts=shard.get("nparts", 1))
 
 
 def _tup(x):
